@@ -317,3 +317,8 @@ def strategy(tier):
 
 def n_random(tier):
     return 9600 if tier == "quick" else 100000
+
+
+def files(case):
+    """source files of a case (used by the differential properties C04 / C09 / C18)"""
+    return {"main.ms": ms.program(case["stmts"])[0]}
